@@ -600,6 +600,11 @@ func main() {
 		lc.flush(r)
 	})
 
+	// (c) record paths: the labels a project can hold (no project part, absolute package; targets
+	// and sources) must map to pairwise distinct record files, each directly inside its kind's
+	// directory under the build-state directory.
+	recordPaths(r)
+
 	wantParse := totalStrings(labelAlpha, maxLabel)
 	wantPaths := totalStrings(pathAlpha, maxPath) * int64(len(pkgs)) * 2
 	if !r.Expired() && (r.Get("parse_calls") != wantParse || r.Get("path_resolutions") != wantPaths) {
@@ -627,7 +632,7 @@ func main() {
 		"the location of a source label is computed the way loadSourceFile/path() do (label.Split(Package)[1:] + Name joined under the root); the root is the stand-in " + fakeRoot + " and 'inside' is lexical, the root itself counts as inside",
 		"an absolute path with '..' at the root (\"/../a\") is read like the OS reads it (\"/..\" is \"/\"): it stays inside, so accepting it is not a violation; such cases are counted (abs_dotdot_clamped_to_root)",
 		"the property says what must be rejected, not what must be accepted: rejections of paths that stay inside (empty path, ':' in a directory or file name, which no label can spell) are counted, not failed",
-		"record paths (targetInfoPath) need a *Project and are not part of this check; distinct source labels are shown to print distinct strings, which is what the target table is keyed by",
+		"record paths: every accepted label with kind \"\" or \"source\", no project part and an absolute package is mapped through the real targetInfoPath of a loaded Project; distinct labels must give distinct files, each a direct child of .dawn/build/<kind>s",
 	}
 	r.Finish(vlib.Coverage{
 		Evaluations:        r.Get("parse_calls") + r.Get("path_resolutions"),
@@ -640,4 +645,58 @@ func main() {
 		Outcomes:    r.NumOutcomes("classes"),
 		Bounds:      map[string]any{"label_len": maxLabel, "label_alphabet": labelAlpha, "path_len": maxPath, "path_alphabet": pathAlpha, "packages": pkgs},
 	})
+}
+
+// recordPaths checks the injectivity and confinement of targetInfoPath over all accepted labels
+// collected in the global table.
+func recordPaths(r *vlib.Run) {
+	root := filepath.Join(r.Scratch, "recproj")
+	os.MkdirAll(root, 0o755)
+	if err := os.WriteFile(filepath.Join(root, "dawn.toml"), []byte("name = \"p\"\n"), 0o644); err != nil {
+		vlib.Fatalf("%v", err)
+	}
+	proj, err := dawn.Load(root, nil)
+	if err != nil {
+		vlib.Fatalf("record-path project does not load: %v", err)
+	}
+	work := filepath.Join(root, ".dawn", "build")
+	byPath := map[string]label.Label{}
+	n := 0
+	for i := range shards {
+		for l := range shards[i].labels {
+			l := l
+			if (l.Kind != "" && l.Kind != "source") || l.Project != "" || !strings.HasPrefix(l.Package, "//") || l.Name == "" {
+				continue
+			}
+			var p string
+			func() {
+				defer func() {
+					if x := recover(); x != nil {
+						r.Violation("C12:record-path-panic", fmt.Sprintf("targetInfoPath(%+v) panicked: %v", l, x), map[string]any{"label": show(&l)})
+					}
+				}()
+				p = dawn.VerifTargetInfoPath(proj, &l)
+			}()
+			if p == "" {
+				continue
+			}
+			n++
+			kind := l.Kind
+			if kind == "" {
+				kind = "target"
+			}
+			dir := filepath.Join(work, kind+"s")
+			if filepath.Dir(p) != dir || filepath.Base(p) == "." || filepath.Base(p) == ".." {
+				r.Violation("C12:record-path-outside-kind-directory", fmt.Sprintf("the record of %s is %s, not a file directly inside %s", show(&l), p, dir), map[string]any{"label": show(&l), "path": p})
+				continue
+			}
+			if prev, ok := byPath[p]; ok && prev != l {
+				r.Violation("C12:record-path-collision", fmt.Sprintf("different labels %s and %s share the record file %s", show(&prev), show(&l), p), map[string]any{"a": show(&prev), "b": show(&l), "path": p})
+				continue
+			}
+			byPath[p] = l
+		}
+	}
+	r.Add("record_paths", int64(n))
+	r.Extra["record_paths_checked"] = n
 }
